@@ -409,6 +409,9 @@ def run(ctx):
     from .c03 import rule_ns_primitives
     rule_ns_primitives(ctx, mir, rid="R04.12")
 
+    # ------------------------------------------------------------------ R04.13 (generic, scoped to this property's anchors)
+    sm.rule_named_plumbing(ctx, mir, "C04", "R04.13", floor=77)
+
     ctx.not_decided += ["correctness of the compiled program (prefix sharing, jumps, recovery points) against CSS semantics for all selector sets x documents: a behavioural equivalence out of reach of this technique",
                         "the arithmetic of NthChild::has_index (value-level; e.g. sign handling for negative steps)"]
     return ("Structural clauses only: validator/translator agreement over the selectors crate's Component, Combinator and NthType variants, the "
